@@ -1,5 +1,6 @@
 import CLModel.Proofs.Primary
 import CLModel.Model.Issuance
+import CLModel.Proofs.Guards
 import Mathlib.Tactic.Linarith
 import Mathlib.Tactic.Abel
 import Mathlib.Data.ZMod.Basic
@@ -199,5 +200,22 @@ end algebra
 
 /-! non-vacuity -/
 example : ∀ x : ZMod 7, ((7 : ℤ)) • x = 0 := by decide
+
+/-! ## guards regenerated from `prover.rs` / `issuer.rs` -/
+
+/-- **the holder's interval guard in the source is the model's condition**: with
+`e_offset = e − LARGE_E_START_VALUE`, `e_offset.is_negative() || e_offset.num_bits() >
+LARGE_E_END_RANGE` is `e < 2^596 ∨ e ≥ 2^596 + 2^119` (an off-by-one bound breaks it) -/
+theorem holder_e_guard_from_source (e : Int) :
+    Gen.holderEOffsetIsEMinusStart = true ∧
+    evalGuard Gen.holderEGuard
+        [signOf (e - 2 ^ Gen.LARGE_E_START), numBits (e - 2 ^ Gen.LARGE_E_START)]
+      = decide (e < 2 ^ Gen.LARGE_E_START ∨ e ≥ 2 ^ Gen.LARGE_E_START + 2 ^ Gen.LARGE_E_END_RANGE) :=
+  ⟨rfl, holderE_shape_spec e⟩
+
+/-- **the issuer folds over the DECLARED hidden attributes** (`hiddenFold … b.hidden` in the
+model): `u_cap` is built from `blinded_cred_secrets.hidden_attributes`, each response looked up
+in `m_caps` with an error when missing — not from the proof's own `m_caps` keys -/
+theorem blinded_fold_from_source : Gen.blindedFoldOverDeclaredHidden = true := rfl
 
 end CL.C05
